@@ -167,7 +167,7 @@ Definition judge_sweep (c : sweep_case) : Z :=
         let l := R cls (Ufunc n "__call__") in
         match l with
         | LfTypeError => if is_typeerror k then 0 else 1
-        | _ => if k =? K_UFUNC_TYPEERROR then 3 else 0
+        | _ => if k =? K_UFUNC_TYPEERROR then 3 else if negb np_ok then 4 else 0
         end
     | _ => 0
     end.
